@@ -127,21 +127,18 @@ class CallMixin(object):
     if path == 'weakref.WeakSet':
       src = args[0] if args else None
       pred = as_setpred(src, st) if src is not None else (lambda e: z3.BoolVal(False))
-      r = ops.new_set(st, pred, Ty('set', (elem_type(src) if src is not None else ANY,)))
-      st.assume(typeof(r.t) == cls_const('WeakSet'))
+      r = ops.new_set(st, pred, Ty('set', (elem_type(src) if src is not None else ANY,)), 'WeakSet')
       yield st, r
       return
     raise Unsupported('call to undeclared function %s' % path)
 
   def make_exception(self, cls, args, st):
     r = ops.alloc_obj(st, Ty('obj', (), cls), 'exc')
-    st.assume(typeof(r.t) == cls_const(cls))
     r.exc_cls = cls
     return r
 
   def construct(self, cls, args, kw, st):
     obj = ops.alloc_obj(st, Ty('obj', (), cls.name), cls.name.lower())
-    st.assume(typeof(obj.t) == cls_const(cls.name))
     q = self.world.find_method(cls.name, '__init__')
     if q is None:
       yield st, obj
@@ -359,6 +356,7 @@ class CallMixin(object):
   def havoc_frame(self, st, modifies, cx, c=None):
     """Havoc exactly the locations named by `modifies` (objects or obj.field)."""
     objs, fields, everything = [], [], False
+    objkinds = {}
     for m in modifies:
       if m == '*':
         everything = True
@@ -372,12 +370,15 @@ class CallMixin(object):
           node = node.args[0]
         v = self.sv(node, cx)
         objs.append(to_u(v, cx))
+        objkinds[len(objs) - 1] = v.ty.kind if isinstance(v, VRef) else None
     old = st.heap
     if everything:
       names = [nm for nm in set(old.names()) | set(CONTAINER_COMPS) | {'alloc'}]
       st.heap = old.havoc(names)
       o = z3.Const(fresh_name('o'), U)
-      st.assume(z3.ForAll([o], z3.Implies(old.alloc(o), st.heap.alloc(o))))
+      st.assume(ForAllT([o], z3.Implies(old.alloc(o), st.heap.alloc(o))))
+      self.preserve_private(st, old)
+      ops.heap_wf(st, st.heap, getattr(self, 'ref_fields', ()), getattr(self, 'field_kinds', None), getattr(self, 'value_kinds', None))
       return
     names = list(CONTAINER_COMPS) + ['alloc'] + [('fld', f) for _, f in fields]
     new = old.havoc(names)
@@ -385,19 +386,67 @@ class CallMixin(object):
     o = z3.Const(fresh_name('o'), U)
     e = z3.Const(fresh_name('e'), U)
     i = z3.Const(fresh_name('i'), I)
-    untouched = z3.And([o != m for m in objs] + [old.alloc(o)])
-    st.assume(z3.ForAll([o, e], z3.Implies(untouched, new.mem(o, e) == old.mem(o, e))))
-    st.assume(z3.ForAll([o, e], z3.Implies(untouched, new.dom(o, e) == old.dom(o, e))))
-    st.assume(z3.ForAll([o, e], z3.Implies(untouched, new.val(o, e) == old.val(o, e))))
-    st.assume(z3.ForAll([o], z3.Implies(untouched, new.len(o) == old.len(o))))
-    st.assume(z3.ForAll([o, i], z3.Implies(untouched, new.item(o, i) == old.item(o, i))))
-    st.assume(z3.ForAll([o], z3.Implies(old.alloc(o), new.alloc(o))))
+    # a modified dict changes only dom/val, a set only mem, a list only len/item/lmem
+    def unt(kinds):
+      return z3.And([o != m for j, m in enumerate(objs) if objkinds.get(j) in kinds + (None, 'any', 'opt', 'union')]
+                    + [old.alloc(o)])
+    untouched = unt(('set', 'dict', 'list', 'vtuple'))
+    st.assume(ForAllT([o, e], z3.Implies(unt(('set',)), new.mem(o, e) == old.mem(o, e))))
+    st.assume(ForAllT([o, e], z3.Implies(unt(('list', 'vtuple')), new.lmem(o, e) == old.lmem(o, e))))
+    st.assume(ForAllT([o, e], z3.Implies(unt(('dict',)), new.dom(o, e) == old.dom(o, e))))
+    st.assume(ForAllT([o, e], z3.Implies(unt(('dict',)), new.val(o, e) == old.val(o, e))))
+    st.assume(ForAllT([o], z3.Implies(unt(('list', 'vtuple')), new.len(o) == old.len(o))))
+    st.assume(ForAllT([o, i], z3.Implies(unt(('list', 'vtuple')), new.item(o, i) == old.item(o, i))))
+    st.assume(ForAllT([o], z3.Implies(old.alloc(o), new.alloc(o))))
     byfield = {}
     for b, f in fields:
       byfield.setdefault(f, []).append(b)
     for f, bases in byfield.items():
       nf, of = new.get(('fld', f)), old.get(('fld', f))
-      st.assume(z3.ForAll([o], z3.Implies(z3.And([o != b for b in bases] + [old.alloc(o)]), nf(o) == of(o))))
+      st.assume(ForAllT([o], z3.Implies(z3.And([o != b for b in bases] + [old.alloc(o)]), nf(o) == of(o))))
+    ops.heap_wf(st, st.heap, getattr(self, 'ref_fields', ()), getattr(self, 'field_kinds', None), getattr(self, 'value_kinds', None))
+
+  def preserve_private(self, st, old):
+    """Objects allocated by this function that never escape cannot be touched by a callee."""
+    c = self.contract
+    if c is None or not c.private or self.inline_depth > 0:
+      return
+    new = st.heap
+    e = z3.Const(fresh_name('e'), U)
+    i = z3.Const(fresh_name('i'), I)
+    for nm in c.private:
+      v = st.env.get(nm)
+      if not isinstance(v, VRef):
+        continue
+      self.oblige('private/%s/is-local' % nm, st, z3.Not(self.entry_cx.heap.alloc(v.t)),
+                  detail='%s must be allocated by this function' % nm)
+      st.assume(ForAllT([e], new.mem(v.t, e) == old.mem(v.t, e)))
+      st.assume(ForAllT([e], new.lmem(v.t, e) == old.lmem(v.t, e)))
+      st.assume(new.len(v.t) == old.len(v.t))
+      st.assume(ForAllT([i], new.item(v.t, i) == old.item(v.t, i)))
+      st.assume(ForAllT([e], new.dom(v.t, e) == old.dom(v.t, e)))
+      st.assume(ForAllT([e], new.val(v.t, e) == old.val(v.t, e)))
+    self.private_unreferenced(st)
+
+  def private_unreferenced(self, st):
+    """No heap location refers to a private (non-escaping) local object."""
+    c = self.contract
+    if c is None or not c.private or self.inline_depth > 0:
+      return
+    h = st.heap
+    o = z3.Const(fresh_name('po'), U)
+    e = z3.Const(fresh_name('pe'), U)
+    i = z3.Const(fresh_name('pi'), I)
+    for nm in c.private:
+      v = st.env.get(nm)
+      if not isinstance(v, VRef):
+        continue
+      p_ = v.t
+      for f in getattr(self, 'ref_fields', ()):
+        st.assume(ForAllT([o], h.fld(f, U)(o) != p_))
+      st.assume(ForAllT([o, e], z3.Implies(h.mem(o, e), e != p_)))
+      st.assume(ForAllT([o, e], z3.Implies(h.lmem(o, e), e != p_)))
+      st.assume(ForAllT([o, e], z3.Implies(h.dom(o, e), z3.And(e != p_, h.val(o, e) != p_))))
 
   def _is_container_field(self, node, cx):
     """`self.in_` names the dict object stored in the field (a container), not the field slot."""
@@ -442,7 +491,8 @@ class CallMixin(object):
     names = [nm for nm in set(old.names()) | set(CONTAINER_COMPS)]
     st.heap = old.havoc(names)
     o = z3.Const(fresh_name('o'), U)
-    st.assume(z3.ForAll([o], z3.Implies(old.alloc(o), st.heap.alloc(o))))
+    st.assume(ForAllT([o], z3.Implies(old.alloc(o), st.heap.alloc(o))))
+    ops.heap_wf(st, st.heap, getattr(self, 'ref_fields', ()), getattr(self, 'field_kinds', None), getattr(self, 'value_kinds', None))
     oldcx = SpecCtx(pre_env, old, st.pc, None, self.cur_mod)
     cx = SpecCtx(pre_env, st.heap, st.pc, oldcx, self.cur_mod)
     for p in c.opaque_preserves:
@@ -612,8 +662,11 @@ class CallMixin(object):
       la, ia = self.seq_view(l, st)
       lb, ib = self.seq_view(args[0], st)
       oldlen, olditem = h.get('len'), h.get('item')
+      oldl = h.get('lmem')
+      pb = as_setpred(args[0], st)
       st.heap = h.with_('len', upd1(oldlen, l.t, la + lb)).with_(
-          'item', lambda x, i: z3.If(z3.And(x == l.t, i >= la), ib(i - la), olditem(x, i)))
+          'item', lambda x, i: z3.If(z3.And(x == l.t, i >= la), ib(i - la), olditem(x, i))).with_(
+          'lmem', lambda x, e: z3.If(x == l.t, z3.Or(oldl(x, e), pb(e)), oldl(x, e)))
       yield st, VNone
     elif meth == 'insert' and isinstance(args[0], VInt):
       oldlen, olditem = h.get('len'), h.get('item')
@@ -621,6 +674,8 @@ class CallMixin(object):
       k = args[0].t
       k = z3.If(k < 0, z3.If(k + n0 < 0, 0, k + n0), z3.If(k > n0, n0, k))
       u = to_u(args[1], st)
+      oldl = h.get('lmem')
+      h = h.with_('lmem', lambda x, e: z3.If(x == l.t, z3.Or(e == u, oldl(x, e)), oldl(x, e)))
       st.heap = h.with_('len', upd1(oldlen, l.t, n0 + 1)).with_(
           'item', lambda x, i: z3.If(x == l.t, z3.If(i < k, olditem(x, i), z3.If(i == k, u, olditem(x, i - 1))),
                                      olditem(x, i)))
